@@ -212,7 +212,14 @@ def gen_find_case(ch):
     key = ch.choice(["group", "name", "type", "status"])
     target = ch.choice(["test", "roads", "a", 0, 1, "", "POINT", False, 5])
     near = []
-    if isinstance(target, str):
+    if ch.chance(1, 5):
+        # list-valued keywords (EXTENT, COLOR, PROCESSING): find compares the whole value for equality,
+        # findall takes a list for the values asked for
+        key = ch.choice(["extent", "color", "processing"])
+        target = ch.choice([[0, 0, 50, 50], [255, 0, 0], ["a", "b"], [1], []])
+    if isinstance(target, list):
+        near = [target + [1], target[:-1], list(reversed(target)) + [0], None, ""] + list(target)
+    elif isinstance(target, str):
         near = [target + "1", target[:-1], "x" + target, target.upper(), target + " ", ""]
     else:
         near = [target + 1, str(target), None, 0, False, ""]
@@ -226,7 +233,7 @@ def gen_find_case(ch):
         if m == 0:
             tags.add("item_lacks_key")
         elif m in (1, 2):
-            d[key] = target
+            d[key] = list(target) if isinstance(target, list) else target
             tags.add("match")
         elif m == 3:
             d[key] = ch.choice(near)
@@ -236,6 +243,8 @@ def gen_find_case(ch):
         if ch.bool():
             d["other"] = ch.choice(SCALARS)
         lst.append(d)
+    if isinstance(target, list):
+        tags.add("list_valued_key")
     if ch.chance(1, 3):
         values = [target] + [ch.choice(SCALARS) for _ in range(ch.int(0, 2))]
         tags.add("list_of_values")
@@ -282,7 +291,7 @@ def check_find(case):
         out.append(Discrepancy(f"find:raised:{type(e).__name__}", f"find raised {type(e).__name__}: {e!s:.80}", case))
     unchanged("find")
     # findall
-    want = values if values is not None else [target]
+    want = values if values is not None else (target if isinstance(target, (list, tuple, set)) else [target])
     expl = [d for d in lst if lk in dict.keys(d) and any(dict.__getitem__(d, lk) == w for w in want)]
     try:
         gotl = mappyfile.findall(lst, key, values if values is not None else target)
